@@ -30,6 +30,10 @@ class Hang(Exception):
     """The awaited operation cannot finish (quiescent loop or spin)."""
 
 
+class ServerGarbage(Exception):
+    """The server sent something no reader can interpret (e.g. `UID None`)."""
+
+
 class HarnessError(Exception):
     """The harness itself failed (never reported as a violation)."""
 
@@ -105,9 +109,15 @@ class Result:
         out = []
         for r in self.untagged("FETCH"):
             try:
-                out.append((r.num, wire.fetch_items(r)))
+                items = wire.fetch_items(r)
             except wire.Malformed:
-                pass
+                continue
+            u = items.get("UID")
+            if u is not None and not str(u if not isinstance(u, (bytes, bytearray)) else bytes(u).decode("latin-1")).isdigit():
+                # e.g. "UID None": not something any oracle can work with; reported as a violation
+                # of the property being checked (clause <ID>.observe.garbage), never as a harness error
+                raise ServerGarbage(f"FETCH response with a UID that is not a number: {bytes(r.raw)[:120]!r}" if hasattr(r, "raw") else f"FETCH response with UID {u!r}")
+            out.append((r.num, items))
         return out
 
     def brief(self):
